@@ -51,8 +51,17 @@ def gen_cases(seed, tier):
     from .. import c04_gen as G
     G.configure(tier)
     rng = np.random.default_rng([seed, 14])
-    n = 220 if tier == "quick" else 4500
-    return [G.gen_group_case(rng) for _ in range(n)]
+    n = 280 if tier == "quick" else 5600
+    cases = []
+    for i in range(n):
+        u = rng.random()
+        if u < 0.58:
+            cases.append(G.gen_group_case(rng))
+        elif u < 0.79:
+            cases.append(G.gen_samekey_group(rng))
+        else:
+            cases.append(G.gen_varsets_group(rng))
+    return cases
 
 
 def _cls(g):
@@ -63,16 +72,33 @@ def _cls(g):
     sh = g["share"]
     nd = len(g.get("data", []))
     shs = any("share" in c["sampler"] for c in g["conds"])
-    return "%s/%s/dict%d-model%d-param%d-dflt%d/d%d/p%d/ss%d" % ("+".join(kinds), st, sh["dict"], sh["model"], sh["param"],
-                                                              sh["defaults"], nd, len(g.get("params") or []),
-                                                              shs)
+    mode = g.get("mode", "classic")
+    extra = ""
+    if mode == "varsets":
+        extra = "/full%s-res%d-wrap%d%d-flt%d" % ("".join(str(int(c["full"])) for c in g["conds"]), sh.get("residual", False),
+                                                  bool(g["data"][0].get("wrapped")), g["conds"][0]["res_wrapped"],
+                                                  any("filter" in json.dumps(c["sampler"]) for c in g["conds"]))
+    if mode == "samekey":
+        nd = len(g["conds"][0].get("data", []))
+        extra = "/same%d" % sum(1 for c in g["conds"][1:] if c["data"] == g["conds"][0]["data"])
+    return "%s:%s/%s/dict%d-model%d-param%d-dflt%d/d%d/p%d/ss%d%s" % (
+        mode, "+".join(kinds), st, sh["dict"], sh["model"], sh["param"], sh["defaults"], nd, len(g.get("params") or []),
+        shs, extra)
 
 
 # ---------------------------------------------------------------------------------------------
 # snapshots of user-supplied containers
 # ---------------------------------------------------------------------------------------------
 
+def _is_ufun(obj):
+    return type(obj).__name__ in ("UserFunction", "DomainUserFunction") and hasattr(obj, "defaults")
+
+
 def _snap(obj):
+    if _is_ufun(obj):
+        return ("user_function", id(obj), id(obj.fun), _fn_state(obj.fun), id(obj.args), list(obj.args),
+                id(obj.defaults), [(k, id(v), v.detach().clone() if isinstance(v, torch.Tensor) else repr(v)[:50])
+                                   for k, v in obj.defaults.items()])
     if isinstance(obj, dict):
         return ("dict", id(obj), [(k, id(v), _fn_state(v)) for k, v in obj.items()])
     if isinstance(obj, torch.Tensor):
@@ -85,6 +111,8 @@ def _snap(obj):
 
 
 def _fn_state(f):
+    if _is_ufun(f):
+        return _snap(f)
     d = getattr(f, "__defaults__", None)
     if d is None:
         return None
@@ -157,21 +185,32 @@ def _eligible_repeat(c):
 
 
 def _build(g, i, world, shared, watch):
-    """construct condition i; shared = {"dict","defaults","param","models"} objects of this world"""
+    """construct condition i; shared = {"dict","defaults","param","models","residuals"} objects of this world"""
     from .. import c04_world as W
     from .. import c04_dsl as D
     c = g["conds"][i]
     trace = W.Trace()
     kw = {}
-    if shared.get("dict") is not None:
-        c = dict(c, share_dict=True)
-        kw["shared_data"] = shared["dict"]
-    else:
-        kw["shared_data"] = None
+    c = dict(c, share_dict=True)
+    kw["shared_data"] = shared["dict"]
     if shared.get("defaults") is not None:
         kw["defaults"] = shared["defaults"]
     if shared.get("param") is not None:
         kw["param"] = shared["param"]
+    router = None
+    if "res_wrapped" in c:
+        # one residual body for the whole group; the object itself is shared when shared["residuals"] is a registry
+        reg = shared["residuals"] if shared.get("residuals") is not None else {}
+        if "r" not in reg:
+            from torchphysics.utils import UserFunction
+            router = W.TraceRouter()
+            fn, dfl = W.make_residual(c, router, None, shared.get("defaults"))
+            if c["res_wrapped"]:
+                fn = UserFunction(fn)
+                world.user_functions.append(("residual_function", fn))
+            reg["r"] = (fn, dfl, router)
+        fn, dfl, router = reg["r"]
+        kw["residual"] = (fn, dfl)
     if c["kind"] == "pideeponet":
         net, twin, fs = W.build_deeponet(c, world, trace)
         W.seed_sampler(fs.parameter_sampler, c["seed"] % (2 ** 30))
@@ -183,6 +222,7 @@ def _build(g, i, world, shared, watch):
             shared["models"][key] = D.build_model(c["model"], c["vars"])
         kw["model"] = shared["models"][key]
     b = W.build_condition(c, world, trace, **kw)
+    b.router = router
     return b
 
 
@@ -198,18 +238,22 @@ def run_world(g, company, res):
     libdef = library_defaults()
 
     wtrace = W.Trace()       # calls of the (possibly shared) data functions
+    common_data = bool(g.get("data")) or all(not c.get("data") for c in g["conds"])
 
-    def new_dict():
-        return W.make_data_functions(g, wtrace, None, {})
+    def new_dict(i, registry):
+        """the dict handed to condition i: every data function of the group (classic / varsets groups) or the
+        condition's own functions under the group's common keys (samekey groups)"""
+        src = g if common_data else g["conds"][i]
+        return W.make_data_functions(src, wtrace, None, {}, registry)
 
     def fresh_shared(all_shared):
-        c0 = g
         s = {}
-        # a dict with the same content in both worlds: every data function of the group
-        s["dict"] = new_dict() if (sh["dict"] or not company) else None
-        s["defaults"] = W.make_defaults(c0) if (sh["defaults"] or not company) else None
-        s["param"] = W.make_parameter(c0) if (sh["param"] or not company) else None
+        s["registry"] = {} if (sh.get("functions") or not company) else None
+        s["dict"] = new_dict(0, s["registry"]) if ((sh["dict"] and common_data) or not company) else None
+        s["defaults"] = W.make_defaults(g) if (sh["defaults"] or not company) else None
+        s["param"] = W.make_parameter(g) if (sh["param"] or not company) else None
         s["models"] = {} if (sh["model"] or not company) else None
+        s["residuals"] = {} if (sh.get("residual") or not company) else None
         return s
 
     def mech(i, **kw):
@@ -254,7 +298,18 @@ def run_world(g, company, res):
                 w.add("default_argument:" + k, t)
         if shared.get("param") is not None:
             w.add("parameter", shared["param"])
+        for reg in (shared.get("registry") or {}, ):
+            for key, f in reg.items():
+                if _is_ufun(f):
+                    w.add("user_function:data", f)
+        for label, f in getattr(shared.get("world"), "user_functions", []):
+            w.add("user_function:" + label, f)
         for b in bs:
+            for k, f in b.user_dict.items():
+                if _is_ufun(f):
+                    w.add("user_function:data", f)
+            if _is_ufun(b.residual):
+                w.add("user_function:residual_function", b.residual)
             w.add("data_functions_dict", b.user_dict)
             for k, t in b.defaults.items():
                 w.add("default_argument:" + k, t)
@@ -267,6 +322,8 @@ def run_world(g, company, res):
 
     def evaluate(i, r, b, watch):
         b.trace.phase = r
+        if getattr(b, "router", None) is not None:
+            b.router.target = b.trace
         call = (lambda: b.cond(iteration=r)) if g["conds"][i]["kind"] == "pideeponet" else (lambda: b.cond())
         loss, ok = guarded(i, "evaluation %d" % r, call, watch)
         if not ok:
@@ -299,6 +356,8 @@ def run_world(g, company, res):
         for i in range(n):
             world = W.World()
             shared = fresh_shared(False)
+            shared["dict"] = new_dict(i, shared["registry"])
+            shared["world"] = world
             watch = make_watch(shared, [])
             b, ok = guarded(i, "construction", lambda: _build(g, i, world, shared, watch), watch)
             if not ok:
@@ -311,10 +370,11 @@ def run_world(g, company, res):
     else:
         world = W.World()
         shared = fresh_shared(True)
+        shared["world"] = world
         for i in g["build_order"]:
             own = dict(shared)
             if shared.get("dict") is None:
-                own["dict"] = new_dict()
+                own["dict"] = new_dict(i, shared["registry"])
             if shared.get("defaults") is None:
                 own["defaults"] = W.make_defaults(g)
             if shared.get("param") is None:
